@@ -279,6 +279,11 @@ pub fn check_frame(sim: &mut Sim, ci: usize) -> Result<(), Fail> {
             have_set.remove("P");
             exp_set.remove("P");
         }
+        if !exp_set.contains("X") {
+            // the bundle rule did not match on the server at that tick: nothing is claimed about leftovers of its parts
+            have_set.remove("X");
+            have_set.remove("Y");
+        }
         if sim.or.structure && have_set != exp_set {
             return Err(Fail::new(
                 "C03.components",
@@ -301,7 +306,10 @@ pub fn check_frame(sim: &mut Sim, ci: usize) -> Result<(), Fail> {
         let Some(vals) = sim.snap_vals.get(&t).and_then(|v| v.get(&se)) else {
             return Err(Fail::new("C02.unknown_tick", format!("client {ci}: {se} confirmed at tick {t} at which it was not replicated")));
         };
-        for k in ["A", "B", "C", "S", "R", "ChildOf"] {
+        for k in ["A", "B", "C", "S", "R", "ChildOf", "X", "Y"] {
+            if (k == "X" || k == "Y") && !vals.contains_key("X") {
+                continue;
+            }
             if (k == "R" || k == "ChildOf") && have.get(k) == Some(&u64::MAX) {
                 // The reference points at a client entity the harness never saw mapped (it came and went within one
                 // client frame). That is the tick-t value if the server's target at tick t is an entity this client has
@@ -381,6 +389,17 @@ pub fn check_converged(sim: &mut Sim) -> Result<(), Fail> {
             cmp!(B, "B");
             cmp!(C, "C");
             cmp!(S, "S");
+            if sw.get::<X>(se).is_some() && sw.get::<Y>(se).is_some() {
+                cmp!(X, "X");
+                cmp!(Y, "Y");
+            }
+            // a part removed while the rule matched is removed on the client as well
+            if sw.get::<X>(se).is_none() && cw.get::<X>(ce).is_some() && !sim.leftover_ok[slot][0] {
+                return Err(Fail::new("C01.value", format!("client {ci}: slot {slot} still has bundle part X, removed on the server while the rule matched")));
+            }
+            if sw.get::<Y>(se).is_none() && cw.get::<Y>(ce).is_some() && !sim.leftover_ok[slot][1] {
+                return Err(Fail::new("C01.value", format!("client {ci}: slot {slot} still has bundle part Y, removed on the server while the rule matched")));
+            }
             if sim.cfg.periodic {
                 cmp!(P, "P");
             }
